@@ -20,6 +20,13 @@
 //@|    spec fn wf(&self) -> bool;
 //@|    /// the position a position-tracking writer reports (ghost)
 //@|    spec fn wpos(&self) -> nat;
+//@|    /// (prophetic ghost) for a wrapper around a borrowed sink: the contents and the
+//@|    /// invariant of that sink at the moment the wrapper is released - what the owner
+//@|    /// of the sink gets back. No operation of a writer changes them.
+//@|    #[verifier::prophetic]
+//@|    spec fn fin_sink(&self) -> Seq<u8>;
+//@|    #[verifier::prophetic]
+//@|    spec fn fin_wf(&self) -> bool;
 //@  sub <<fn write_all(&mut self, buf: &[u8]) -> ser::Result<()>;>>
 //@  ret r
 //@  spec
@@ -27,6 +34,7 @@
 //@|            // streams are shorter than the address space (machine arithmetic made explicit)
 //@|            old(self).sink().len() + buf@.len() <= usize::MAX,
 //@|        ensures final(self).wf(),
+//@|            final(self).fin_sink() == old(self).fin_sink(), final(self).fin_wf() == old(self).fin_wf(),
 //@|            match r {
 //@|                Ok(()) => final(self).sink() =~= old(self).sink() + buf@
 //@|                    && final(self).wpos() == old(self).wpos() + buf@.len(),
@@ -40,6 +48,7 @@
 //@  spec
 //@|        requires old(self).wf(),
 //@|        ensures final(self).wf(), final(self).sink() == old(self).sink(), final(self).wpos() == old(self).wpos(),
+//@|            final(self).fin_sink() == old(self).fin_sink(), final(self).fin_wf() == old(self).fin_wf(),
 //@|            match r { Ok(()) => true, Err(e) => e is WriteError },
 //@end
 
@@ -64,6 +73,7 @@
 //@  spec
 //@|        requires old(backend).wf(),
 //@|        ensures r.wf(), r.sink() == old(backend).sink(), r.wpos() == 0,
+//@|            r.fin_sink() == final(backend).sink(), r.fin_wf() == final(backend).wf(),
 //@end
 
 //@item epserde/src/ser/write.rs props=C07,C13 name=WriterWithPos::WriteNoStd <<impl<F: WriteNoStd> WriteNoStd for WriterWithPos<'_, F> {>>
@@ -73,6 +83,10 @@
 //@|    /// the reported position never exceeds what the sink has accepted
 //@|    closed spec fn wf(&self) -> bool { self.backend.wf() && self.pos as nat <= self.backend.sink().len() }
 //@|    closed spec fn wpos(&self) -> nat { self.pos as nat }
+//@|    #[verifier::prophetic]
+//@|    closed spec fn fin_sink(&self) -> Seq<u8> { final(self.backend).sink() }
+//@|    #[verifier::prophetic]
+//@|    closed spec fn fin_wf(&self) -> bool { final(self.backend).wf() }
 //@  sub <<fn write_all(&mut self, buf: &[u8]) -> ser::Result<()> {>>
 //@  ret r
 //@  sub <<fn flush(&mut self) -> ser::Result<()> {>>
@@ -112,6 +126,7 @@
 //@|            old(self).wpos() <= old(self).sink().len(),
 //@|            old(self).sink().len() + pad_spec(old(self).wpos() as int, V::unit() as int) <= usize::MAX,
 //@|        ensures final(self).wf(),
+//@|            final(self).fin_sink() == old(self).fin_sink(), final(self).fin_wf() == old(self).fin_wf(),
 //@|            ({
 //@|                let pad = pad_spec(old(self).wpos() as int, V::unit() as int) as nat;
 //@|                match r {
@@ -131,6 +146,7 @@
 //@  loop 1
 //@|            invariant
 //@|                self.wf(),
+//@|                self.fin_sink() == old(self).fin_sink(), self.fin_wf() == old(self).fin_wf(),
 //@|                padding as int == pad_spec(wpos0 as int, V::unit() as int),
 //@|                padding < V::unit(),
 //@|                sink0.len() + padding <= usize::MAX,
@@ -156,6 +172,7 @@
 //@|        requires old(self).wf(),
 //@|            old(self).sink().len() + value@.len() <= usize::MAX,
 //@|        ensures final(self).wf(),
+//@|            final(self).fin_sink() == old(self).fin_sink(), final(self).fin_wf() == old(self).fin_wf(),
 //@|            match r {
 //@|                Ok(()) => final(self).sink() =~= old(self).sink() + value@
 //@|                    && final(self).wpos() == old(self).wpos() + value@.len(),
@@ -170,8 +187,9 @@
 /// of the value at the writer's current position: on success exactly `e` was
 /// appended; on failure (C13) the sink holds the old contents followed by a
 /// prefix of `e`, and the error is a WriteError
+#[verifier::prophetic]
 pub open spec fn ser_post<W: WriteWithNames>(e: Seq<u8>, pre: &W, post: &W, r: SResult<()>) -> bool {
-    post.wf() && match r {
+    post.wf() && post.fin_sink() == pre.fin_sink() && post.fin_wf() == pre.fin_wf() && match r {
         Ok(()) => post.sink() =~= pre.sink() + e
             && post.wpos() == pre.wpos() + e.len(),
         Err(err) => err is WriteError
